@@ -9,10 +9,15 @@ CLAIMED = {}   # filled from manifest.d/Cxx.json (one file per claimed property)
 
 
 def load_snippets():
+    """a property is claimed once its snippet, theorem file and harness are committed (git ls-files)"""
     import glob
+    import subprocess
+    tracked = set(subprocess.run(['git', '-C', VERIF, 'ls-files'], capture_output=True, text=True).stdout.split())
     for path in sorted(glob.glob(os.path.join(VERIF, 'manifest.d', 'C*.json'))):
         pid = os.path.basename(path)[:-5]
-        CLAIMED[pid] = json.load(open(path))
+        need = ['manifest.d/%s.json' % pid, 'coq/Props/%s.v' % pid, 'tools/props/%s.py' % pid.lower()]
+        if all(n in tracked for n in need):
+            CLAIMED[pid] = json.load(open(path))
 
 
 REASON_PENDING = 'check not built yet in this round (model and theorem under construction; see DESIGN.md section 9)'
